@@ -510,6 +510,15 @@ fn c07_cases(quick: bool) -> Vec<Case> {
                 out.push(Case { tree: Tr::Conj(vec![Tr::Leaf(k as u16), d.clone()]), leaves: l3 });
                 if form == 0 {
                     out.push(Case { tree: Tr::Anyo(Box::new(d.clone())), leaves: a.clone() });
+                    // each branch wrapped in dfs{}, and a depth-first conjunction whose first goal
+                    // is the branch (a diverging first goal must not stall the other branches)
+                    let wrapped: Vec<Tr> = leaves.iter().map(|l| Tr::Dfs(Box::new(l.clone()))).collect();
+                    out.push(Case { tree: Tr::Conde(wrapped), leaves: a.clone() });
+                    let mut l4 = a.clone();
+                    l4.push((Script::parse("A"), Enc::Pause));
+                    let conj: Vec<Tr> = leaves.iter().map(|l| Tr::Dfs(Box::new(Tr::Conj(vec![l.clone(), Tr::Leaf(k as u16)])))).collect();
+                    out.push(Case { tree: Tr::Conde(conj.clone()), leaves: l4.clone() });
+                    out.push(Case { tree: Tr::Disj(conj), leaves: l4 });
                 }
             }
         }
@@ -644,6 +653,31 @@ fn c08_cases(quick: bool) -> Vec<Case> {
                 }
                 out.push(Case { tree: Tr::Conda(clauses.clone()), leaves: leaves.clone() });
                 out.push(Case { tree: Tr::Condu(clauses.clone()), leaves: leaves.clone() });
+            }
+        }
+    }
+    // statically true / false goals as head or rest (the constructors fold such goals when the
+    // clause list is built): clauses [L0, false], [true, L1], [false, L1], [L0, true]
+    {
+        let some: Vec<(Script, Enc)> = ["A", "AA", "", "DA"].iter().map(|s| (Script::parse(s), Enc::Pause)).collect();
+        let statics = [Tr::Succeed, Tr::Fail];
+        for a in &some {
+            for b in &some {
+                let leaves = vec![a.clone(), b.clone()];
+                for st in &statics {
+                    for form in 0..4 {
+                        let clauses: Vec<(Tr, Tr)> = match form {
+                            0 => vec![(Tr::Leaf(0), st.clone()), (Tr::Leaf(1), Tr::Succeed)],
+                            1 => vec![(st.clone(), Tr::Leaf(0)), (Tr::Leaf(1), Tr::Succeed)],
+                            2 => vec![(Tr::Leaf(0), Tr::Conj(vec![Tr::Leaf(1), st.clone()])), (Tr::Succeed, Tr::Succeed)],
+                            _ => vec![(Tr::Conj(vec![st.clone(), Tr::Leaf(0)]), Tr::Leaf(1)), (Tr::Leaf(1), st.clone())],
+                        };
+                        out.push(Case { tree: Tr::Conda(clauses.clone()), leaves: leaves.clone() });
+                        out.push(Case { tree: Tr::Condu(clauses.clone()), leaves: leaves.clone() });
+                    }
+                    out.push(Case { tree: Tr::Onceo(Box::new(Tr::Conj(vec![Tr::Leaf(0), st.clone()]))), leaves: leaves.clone() });
+                    out.push(Case { tree: Tr::Onceo(Box::new(Tr::Conde(vec![st.clone(), Tr::Leaf(0)]))), leaves: leaves.clone() });
+                }
             }
         }
     }
